@@ -2,6 +2,7 @@ SPECIFICATION Spec
 CONSTANTS
   MaxBytes = 2
   Cuts = {"origin", "transit", "stall"}
+  AcceptorCloseKillsSocket = FALSE
   ForwarderWaitsOnNode = FALSE
   AcceptLeavesDeadline = FALSE
   MaxNotices = 1
